@@ -14,64 +14,6 @@ import (
 
 func init() {
 	register(&Rule{
-		ID: "reload.reused-at-most-once", Props: []string{"C02", "C14"}, Floor: 6,
-		Doc: "in the three controller / breaker builders an old object that was matched (equal rule: reused as a whole; statistic-reusable rule: its statistic handed to the generator) is removed from the candidate list (append(old[:i], old[i+1:]...) with i the matched index) before the next rule is processed: no two new controllers share one old controller or one statistic (a shared standalone window would be incremented once per sharing controller for every admitted request)",
-		Run: func(c *Ctx) {
-			builders := []string{"core/flow.buildResourceTrafficShapingController", "core/hotspot.buildResourceTrafficShapingController", "core/circuitbreaker.BuildResourceCircuitBreaker"}
-			for _, bn := range builders {
-				f := c.P.Func(bn)
-				if f == nil {
-					c.AnchorLost(bn)
-					continue
-				}
-				var eqIdx, reuseIdx ssa.Value
-				eachInstr(f, func(ins ssa.Instruction) {
-					if ex, ok := ins.(*ssa.Extract); ok {
-						if call, ok := ex.Tuple.(*ssa.Call); ok && call.Call.StaticCallee() != nil && call.Call.StaticCallee().Name() == "calculateReuseIndexFor" {
-							if ex.Index == 0 {
-								eqIdx = ex
-							} else if ex.Index == 1 {
-								reuseIdx = ex
-							}
-						}
-					}
-				})
-				if eqIdx == nil || reuseIdx == nil {
-					c.AnchorLost(bn + " reuse indices")
-					continue
-				}
-				// removal: append(X[:i], X[i+1:]...)
-				removed := map[ssa.Value]bool{}
-				eachInstr(f, func(ins ssa.Instruction) {
-					call, ok := ins.(*ssa.Call)
-					if !ok {
-						return
-					}
-					b, ok := call.Call.Value.(*ssa.Builtin)
-					if !ok || b.Name() != "append" || len(call.Call.Args) != 2 {
-						return
-					}
-					s0, ok0 := call.Call.Args[0].(*ssa.Slice)
-					s1, ok1 := call.Call.Args[1].(*ssa.Slice)
-					if !ok0 || !ok1 || s0.High == nil || s1.Low == nil {
-						return
-					}
-					lo, ok := s1.Low.(*ssa.BinOp)
-					if !ok || lo.Op != token.ADD || lo.X != s0.High {
-						return
-					}
-					if k, ok := constInt(lo.Y); !ok || k != 1 {
-						return
-					}
-					removed[s0.High] = true
-				})
-				c.Check(removed[eqIdx], fnKey(f)+" / equal-old-removed", f.Pos(), "the old object reused for an equal rule is removed from the candidates (old = append(old[:equalIdx], old[equalIdx+1:]...))")
-				c.Check(removed[reuseIdx], fnKey(f)+" / stat-donor-removed", f.Pos(), "the old object whose statistic was handed to the generator is removed from the candidates: otherwise a second new rule receives the same statistic and the window is incremented twice per admitted request")
-			}
-		},
-	})
-
-	register(&Rule{
 		ID: "cb.trip-check-on-closed-completion", Props: []string{"C03"}, Floor: 3,
 		Doc: "in every OnRequestComplete of core/circuitbreaker, every path from the recording of the completion (the totalCount increment) to a return either handles the Open / HalfOpen state or evaluates the minimum-request-amount test (and hence the threshold test) - no completion recorded while the breaker is closed skips the trip decision",
 		Run: func(c *Ctx) {
@@ -458,6 +400,294 @@ func init() {
 				ok := setF != nil && setH != nil && instrDominates(setF, r) && instrDominates(setH, r)
 				c.Check(ok, fmt.Sprintf("%s / return#%d / lists-set", fnKey(f), n), r.Pos(), "filter and half-open lists are (re)written on every path that returns after the node check")
 			}
+		},
+	})
+}
+
+// Rules added after the second round of independently seeded changes.
+
+func init() {
+	register(&Rule{
+		ID: "entry.resource-from-options", Props: []string{"C01", "C07"}, Floor: 1,
+		Doc: "the ResourceWrapper api.entry puts into the context is built from THIS call's name, resource type and traffic type: it is the result of base.NewResourceWrapper on those three values (whose constructor copies them into the fields the getters return), or of a helper every return of which is such a constructor call on its own three parameters or a lookup in a cache whose key mentions all three parameters. (Inbound statistics and the system gate are selected by ctx.Resource.FlowType(); a wrapper remembered from an earlier call with another traffic type misroutes both.)",
+		Run: func(c *Ctx) {
+			f := c.P.Func("api.entry")
+			ctor := c.P.Func("core/base.NewResourceWrapper")
+			rw := c.P.Named("core/base.ResourceWrapper")
+			ectx := c.P.Named("core/base.EntryContext")
+			if f == nil || ctor == nil || rw == nil || ectx == nil {
+				c.AnchorLost("api.entry / NewResourceWrapper / ResourceWrapper")
+				return
+			}
+			// the constructor copies its parameters into the fields
+			st := rw.Underlying().(*types.Struct)
+			copied := map[string]bool{}
+			eachInstr(ctor, func(ins ssa.Instruction) {
+				if s, ok := ins.(*ssa.Store); ok {
+					if fa, ok := s.Addr.(*ssa.FieldAddr); ok && namedOf(fa.X.Type()) == rw {
+						if p, ok := s.Val.(*ssa.Parameter); ok {
+							copied[fieldName(fa.X.Type(), fa.Field)+"<-"+accessPath(p)] = true
+						}
+					}
+				}
+			})
+			c.Check(len(copied) == st.NumFields(), fnKey(ctor)+" / copies-parameters", ctor.Pos(), "NewResourceWrapper stores each of its parameters into a field: %v", keysOfB(copied))
+			wantArgs := func(call *ssa.Call, a0, a1, a2 string) bool {
+				if len(call.Call.Args) != 3 {
+					return false
+				}
+				return accessPath(call.Call.Args[0]) == a0 && accessPath(call.Call.Args[1]) == a1 && accessPath(call.Call.Args[2]) == a2
+			}
+			// all three of this call's values
+			name, typ, flow := "{string}", "{EntryOptions}.resourceType", "{EntryOptions}.entryType"
+			var judge func(v ssa.Value, fn *ssa.Function, a0, a1, a2 string, depth int) string
+			judge = func(v ssa.Value, fn *ssa.Function, a0, a1, a2 string, depth int) string {
+				v = resolve(v)
+				switch x := v.(type) {
+				case *ssa.Phi:
+					for _, e := range x.Edges {
+						if r := judge(e, fn, a0, a1, a2, depth); r != "" {
+							return r
+						}
+					}
+					return ""
+				case *ssa.Call:
+					cal := x.Call.StaticCallee()
+					if cal == ctor {
+						if wantArgs(x, a0, a1, a2) {
+							return ""
+						}
+						return fmt.Sprintf("NewResourceWrapper(%s, %s, %s) is not built from (%s, %s, %s)", accessPath(x.Call.Args[0]), accessPath(x.Call.Args[1]), accessPath(x.Call.Args[2]), a0, a1, a2)
+					}
+					if cal != nil && inModule(fnPkgPath(cal)) && cal.Blocks != nil && depth < 2 && wantArgs(x, a0, a1, a2) && len(cal.Params) == 3 {
+						p0, p1, p2 := accessPath(cal.Params[0]), accessPath(cal.Params[1]), accessPath(cal.Params[2])
+						for _, r := range returnsOf(cal) {
+							if msg := judge(r.Results[0], cal, p0, p1, p2, depth+1); msg != "" {
+								return cal.Name() + ": " + msg
+							}
+						}
+						return ""
+					}
+				case *ssa.TypeAssert:
+					return judge(x.X, fn, a0, a1, a2, depth)
+				case *ssa.Extract:
+					// value loaded from a cache: the key must mention all three parameters
+					if call, ok := x.Tuple.(*ssa.Call); ok {
+						n := ""
+						if cal := call.Call.StaticCallee(); cal != nil {
+							n = extFuncName(cal)
+						}
+						if strings.HasPrefix(n, "sync.(Map).Load") && len(call.Call.Args) >= 2 {
+							k := accessPath(call.Call.Args[1])
+							if strings.Contains(k, a0) && strings.Contains(k, a1) && strings.Contains(k, a2) {
+								return ""
+							}
+							return fmt.Sprintf("wrapper taken from a cache keyed by %s, which does not include all of (%s, %s, %s): the first call on a key fixes the traffic / resource type of all later ones", k, a0, a1, a2)
+						}
+					}
+					if lk, ok := x.Tuple.(*ssa.Lookup); ok {
+						k := accessPath(lk.Index)
+						if strings.Contains(k, a0) && strings.Contains(k, a1) && strings.Contains(k, a2) {
+							return ""
+						}
+						return fmt.Sprintf("wrapper taken from a map keyed by %s, which does not include all of (%s, %s, %s)", k, a0, a1, a2)
+					}
+				case *ssa.Lookup:
+					k := accessPath(x.Index)
+					if strings.Contains(k, a0) && strings.Contains(k, a1) && strings.Contains(k, a2) {
+						return ""
+					}
+					return fmt.Sprintf("wrapper taken from a map keyed by %s, which does not include all of (%s, %s, %s)", k, a0, a1, a2)
+				}
+				return "origin " + accessPath(v) + " of the wrapper is not a constructor call on this call's values"
+			}
+			n := 0
+			for _, s := range fieldStores(c.P, ectx, "Resource") {
+				if s.fn != f {
+					continue
+				}
+				n++
+				msg := judge(s.st.Val, f, name, typ, flow, 0)
+				c.Check(msg == "", fmt.Sprintf("%s / ctx.Resource#%d", fnKey(f), n), s.st.Pos(), "the context's resource is built from this call's (name, resourceType, entryType)%s", map[bool]string{true: "", false: ": " + msg}[msg == ""])
+			}
+			if n == 0 {
+				c.Violate(fnKey(f)+" / ctx.Resource", f.Pos(), "api.entry no longer sets the context's resource")
+			}
+		},
+	})
+
+	register(&Rule{
+		ID: "hotspot.stat-slot-only-adds", Props: []string{"C06"}, Floor: 2,
+		Doc: "ConcurrencyStatSlot's callbacks touch the per-value concurrency cache only through Get: they never Remove / Purge / Add / AddIfAbsent a cell (a cell removed while another admitted entry of that value has not yet been counted loses that entry's unit)",
+		Run: func(c *Ctx) {
+			for _, name := range []string{"OnEntryPassed", "OnEntryBlocked", "OnCompleted"} {
+				f := c.P.Func(hsPkg + ".(*ConcurrencyStatSlot)." + name)
+				if f == nil {
+					c.AnchorLost("ConcurrencyStatSlot." + name)
+					continue
+				}
+				_, order := c.P.Reach([]*ssa.Function{f}, false)
+				bad := ""
+				for _, g := range order {
+					if relPkg(fnPkgPath(g)) != hsPkg {
+						continue
+					}
+					for _, ci := range callsIn(g) {
+						cc := ci.Common()
+						if cc.IsInvoke() && typeIs(cc.Value.Type(), hsPkg+"/cache", "ConcurrentCounterCache") {
+							switch cc.Method.Name() {
+							case "Get", "Contains", "Len", "Keys":
+							default:
+								bad = fmt.Sprintf("%s.%s at %s", accessPath(cc.Value), cc.Method.Name(), c.P.Pos(ci.Pos()))
+							}
+						}
+					}
+				}
+				c.Check(bad == "", fnKey(f)+" / cache-read-only", f.Pos(), "statistic callbacks only look cells up (%s)", bad)
+			}
+		},
+	})
+}
+
+func init() {
+	register(&Rule{
+		ID: "stat.node-per-resource", Props: []string{"C01", "C02", "C04"}, Floor: 3,
+		Doc: "stat.GetOrCreateResourceNode returns, on every path, either the node registered under the requested resource name (a lookup of resNodeMap by that very name, possibly through GetResourceNode) or a node freshly created for that name by NewResourceNode(name, ...): no two resource names ever share a statistic node, so passes, completions and the in-flight gauge are attributed to the resource that was entered and a rule's window counts only its own resource",
+		Run: func(c *Ctx) {
+			f := c.P.Func("core/stat.GetOrCreateResourceNode")
+			getN := c.P.Func("core/stat.GetResourceNode")
+			newN := c.P.Func("core/stat.NewResourceNode")
+			g := c.P.Global("core/stat.resNodeMap")
+			if f == nil || getN == nil || newN == nil || g == nil {
+				c.AnchorLost("stat.GetOrCreateResourceNode / GetResourceNode / NewResourceNode / resNodeMap")
+				return
+			}
+			nameP := accessPath(f.Params[0])
+			var judge func(v ssa.Value, d int) string
+			judge = func(v ssa.Value, d int) string {
+				if d > 5 {
+					return "too deep"
+				}
+				switch x := resolve(v).(type) {
+				case *ssa.Phi:
+					for _, e := range x.Edges {
+						if m := judge(e, d+1); m != "" {
+							return m
+						}
+					}
+					return ""
+				case *ssa.Call:
+					cal := x.Call.StaticCallee()
+					if (cal == getN || cal == newN) && len(x.Call.Args) >= 1 && accessPath(x.Call.Args[0]) == nameP {
+						return ""
+					}
+					return "call " + accessPath(x) + " is not GetResourceNode / NewResourceNode of the requested name"
+				case *ssa.Lookup:
+					if ld, ok := x.X.(*ssa.UnOp); ok && ld.X == ssa.Value(g) && accessPath(x.Index) == nameP {
+						return ""
+					}
+					return "lookup " + accessPath(x) + " is not resNodeMap[name]"
+				case *ssa.Extract:
+					return judge(x.Tuple, d+1)
+				case *ssa.UnOp:
+					if _, isG := x.X.(*ssa.Global); isG {
+						return "the package-level node " + accessPath(x) + " is handed out for an arbitrary resource name"
+					}
+					// result variable of a function with defer: every value stored into it is a returned value
+					if al, ok := x.X.(*ssa.Alloc); ok {
+						n := 0
+						for _, r := range refsOf(al) {
+							if st, ok := r.(*ssa.Store); ok && st.Addr == ssa.Value(al) {
+								n++
+								if m := judge(st.Val, d+1); m != "" {
+									return m
+								}
+							}
+						}
+						if n > 0 {
+							return ""
+						}
+					}
+				case *ssa.Const:
+					if x.Value == nil {
+						return "" // zero value before assignment
+					}
+				}
+				return "origin " + accessPath(v) + " is not a per-name node"
+			}
+			for i, r := range returnsOf(f) {
+				msg := judge(r.Results[0], 0)
+				c.Check(msg == "", fmt.Sprintf("%s / return#%d", fnKey(f), i+1), r.Pos(), "returns the node of the requested resource name%s", map[bool]string{true: "", false: ": " + msg + " - several resources would share one window and one in-flight gauge"}[msg == ""])
+			}
+			// a created node is registered under its own name
+			okStore := false
+			eachInstr(f, func(ins ssa.Instruction) {
+				if mu, ok := ins.(*ssa.MapUpdate); ok {
+					if ld, ok := mu.Map.(*ssa.UnOp); ok && ld.X == ssa.Value(g) {
+						okStore = accessPath(mu.Key) == nameP && judge(mu.Value, 0) == ""
+						c.Check(okStore, fnKey(f)+" / registers-under-own-name", mu.Pos(), "resNodeMap[%s] = %s", accessPath(mu.Key), accessPath(mu.Value))
+					}
+				}
+			})
+			if !okStore {
+				c.Violate(fnKey(f)+" / registers", f.Pos(), "a newly created node is not registered under the requested name")
+			}
+			// check-then-act: the node is stored only when, under the very write lock that covers the store, the
+			// name was looked up and found absent. Otherwise two first entries of one resource each register a node and
+			// the entry counted on the overwritten node is lost to the in-flight gauge for its whole lifetime.
+			isOp := func(ins ssa.Instruction, want string) bool {
+				ci, ok := ins.(ssa.CallInstruction)
+				if !ok {
+					return false
+				}
+				if _, isDefer := ins.(*ssa.Defer); isDefer {
+					return false
+				}
+				k, op, ok := mutexOp(ci)
+				return ok && op == want && strings.HasSuffix(k, "rnsMux")
+			}
+			lock := func(ins ssa.Instruction) bool { return isOp(ins, "Lock") }
+			unlock := func(ins ssa.Instruction) bool { return isOp(ins, "Unlock") || isOp(ins, "RUnlock") }
+			eachInstr(f, func(ins ssa.Instruction) {
+				mu, ok := ins.(*ssa.MapUpdate)
+				if !ok {
+					return
+				}
+				if ld, ok := mu.Map.(*ssa.UnOp); !ok || ld.X != ssa.Value(g) {
+					return
+				}
+				held := mustBeforeInstr(mu, lock, unlock)
+				rechecked := false
+				for _, ft := range condFacts(mu.Block()) {
+					bo, ok := ft.Cond.(*ssa.BinOp)
+					if !ok || !((bo.Op == token.EQL && ft.Truth) || (bo.Op == token.NEQ && !ft.Truth)) {
+						continue
+					}
+					for _, side := range []ssa.Value{bo.X, bo.Y} {
+						lk, ok := resolve(side).(*ssa.Lookup)
+						if !ok {
+							continue
+						}
+						if ld, ok := lk.X.(*ssa.UnOp); !ok || ld.X != ssa.Value(g) || accessPath(lk.Index) != nameP {
+							continue
+						}
+						if !mustBeforeInstr(lk, lock, unlock) {
+							continue
+						}
+						// no release of the lock between the lookup and the store
+						released := false
+						eachInstr(f, func(u ssa.Instruction) {
+							if unlock(u) && instrReaches(lk, u) && instrReaches(u, mu) {
+								released = true
+							}
+						})
+						if !released {
+							rechecked = true
+						}
+					}
+				}
+				c.Check(held && rechecked, fnKey(f)+" / absent-rechecked-under-write-lock", mu.Pos(), "the node is registered with rnsMux write-held (%v) and only after resNodeMap[name] was found absent under that same hold (%v): concurrent first entries of one resource must end up on one node", held, rechecked)
+			})
 		},
 	})
 }
